@@ -32,13 +32,9 @@
     order of a round is then a word with bounded repetitions, the bijection is
     [C13_prefix_copies_bij] and the model's memoised unranker is tied to it by
     [C13_stack_count_refines] / [C13_stack_unrank_refines] / [C13_count_dispatch_refines]
-    - which hold whenever that unranker returns (its explicit stack runs on
-    fuel).  Injectivity and distinctness need nothing more: no key is drawn
-    when the model returns an error value.  [accept_complete] is stated for the
-    designs on which the enumerator and its key list are defined
-    ([FragSem.enumerates], decidable: [enumerates_b]); without weights this
-    always holds ([C05_enumerates_unweighted]), with weights it is evaluated on
-    every generated design by the correspondence run (layer L8-theorem-statements). *)
+    and the C13 totality theorems ([C13_count_dispatch_total], [C13_unrank_dispatch_total],
+    [C13_stack_unrank_total]): the enumerator and its key list are always
+    defined ([C05_enumerates]; [FragSem.enumerates]). *)
 From Coq Require Import List.
 From SP Require Import Design.Flat Design.Sem Random.Enum Random.Frag Random.FragSem Random.Frag2Thms Random.Frag1Thms
   Random.Frag0Example.
@@ -93,13 +89,16 @@ Proof. exact f2_keys_nodup. Qed.
 Print Assumptions C05_keys_nodup_frag2.
 
 Theorem C05_accept_complete_frag2 : forall (fb : flat), frag2 fb = true ->
-  forall (s : tseq), enumerates fb -> fl_errors_fail fb = false -> valid_b (code_sem fb) s = true ->
+  forall (s : tseq), fl_errors_fail fb = false -> valid_b (code_sem fb) s = true ->
   exists (k : key) (cand : candidate),
     In k (keys_of fb) /\ decode_key fb k = Some cand /\ accepts fb cand = true /\ cand_seq fb cand = s.
 Proof. exact f2_accept_complete. Qed.
 Print Assumptions C05_accept_complete_frag2.
 
-(** without weights the side condition always holds *)
+(** the enumerator and the key list of the model are defined on the whole fragment *)
+Theorem C05_enumerates : forall (fb : flat), frag2 fb = true -> enumerates fb.
+Proof. exact f2_enumerates. Qed.
+Print Assumptions C05_enumerates.
 Theorem C05_enumerates_unweighted : forall (fb : flat), frag1 fb = true -> enumerates fb.
 Proof. exact f1_enumerates. Qed.
 Print Assumptions C05_enumerates_unweighted.
